@@ -186,6 +186,7 @@ func (p *iopPoly_@C@) ToCanonical(d IopDomain, nbTasks ...int) {
 }
 func (p *iopPoly_@C@) ToLagrangeCoset(d IopDomain)        { p.p.ToLagrangeCoset(dom_@C@(d)) }
 func (p *iopPoly_@C@) WriteTo(w io.Writer) (int64, error) { return p.p.WriteTo(w) }
+func (p *iopPoly_@C@) ReadFrom(r io.Reader) (int64, error) { return p.p.ReadFrom(r) }
 '''
 
 FR_TEMPLATE = r'''
